@@ -1,7 +1,7 @@
 // C08 -- mutexes: mutual exclusion, reader/writer rules, truthful upgrade, try never blocks,
 // FIFO for queuing types, no lost hand-off.   See DESIGN.md s.6 C08.
 //
-// program:   mutex <type> threads=<n> native=<0|1>
+// program:   mutex <type> threads=<n> native=<0|1> ctor=<0|1 scoped_lock(m, write) constructor / destructor instead of acquire / release>
 //            t <i> <op> <op> ...
 // ops: A acquire-writer  a acquire-reader  T try-writer  t try-reader  (suffix ! = run the try solo)
 //      U upgrade  D downgrade  R release  W<k> work k points
@@ -11,6 +11,7 @@
 #include "oneapi/tbb/queuing_rw_mutex.h"
 #include "oneapi/tbb/mutex.h"
 #include "oneapi/tbb/rw_mutex.h"
+#include <memory>
 #include "../engine/drv/drv.h"
 
 const char* H_PROP = "C08";
@@ -25,7 +26,7 @@ std::string h_gen(Src& s) {
     int ty = (int)s.choose(8); if (drv_flag("--sleepy")) ty = s.flip() ? 4 : 5;   // tbb::mutex / tbb::rw_mutex: the types that put waiters to sleep
     int nt = s.range(2, 4); bool rw = is_rw(ty);
     bool native = has_native(ty) && s.flip();
-    std::string o = std::string("mutex ") + TYPES[ty] + " threads=" + std::to_string(nt) + " native=" + (native ? "1" : "0") + "\n";
+    std::string o = std::string("mutex ") + TYPES[ty] + " threads=" + std::to_string(nt) + " native=" + (native ? "1" : "0") + " ctor=" + ((!native && s.coin(3)) ? "1" : "0") + "\n";
     for (int t = 0; t < nt; t++) {
         o += "t " + std::to_string(t);
         int nops = s.range(1, 6); int hold = 0;   // 0 none 1 reader 2 writer
@@ -60,7 +61,7 @@ static long n_waited = 0, n_overlap = 0, n_upg_true = 0, n_upg_false = 0, n_try_
 static int g_inside_acquire = 0, g_upgrading = 0; static bool g_fifo_ok = true;
 struct Req { int tid; bool write; uint64_t inv, q, grant; };
 static std::vector<Req> g_reqs;
-static int g_type; static bool g_native; static int g_has_updown = 0;
+static int g_type; static bool g_native; static int g_has_updown = 0; static bool g_ctor = false; static long n_isw = 0;
 static std::vector<std::vector<std::string>> g_ops;
 
 static void enter(bool write, const char* how) {
@@ -73,18 +74,27 @@ static void check_inside(bool write) {
 }
 static void leave(bool write) { check_inside(write); if (write) g_writers--; else g_readers--; }
 
-template <class M> struct Ops {      // scoped_lock based
-    M& m; typename M::scoped_lock sl;
-    explicit Ops(M& mm) : m(mm) {}
-    template <class X = M> auto acq(bool w, int) -> decltype(std::declval<typename X::scoped_lock&>().acquire(std::declval<X&>(), true)) { sl.acquire(m, w); }
-    template <class X = M> void acq(bool, long) { sl.acquire(m); }
-    template <class X = M> auto tryacq(bool w, int) -> decltype(std::declval<typename X::scoped_lock&>().try_acquire(std::declval<X&>(), true)) { return sl.try_acquire(m, w); }
-    template <class X = M> bool tryacq(bool, long) { return sl.try_acquire(m); }
-    template <class X = M> auto up(int) -> decltype(std::declval<typename X::scoped_lock&>().upgrade_to_writer()) { return sl.upgrade_to_writer(); }
+template <class M> struct Ops {      // scoped_lock based.  cfg ctor=1: every acquisition constructs a fresh scoped_lock with the acquiring constructor, release = its destructor
+    typedef typename M::scoped_lock SL;
+    M& m; std::unique_ptr<SL> p;
+    explicit Ops(M& mm) : m(mm) { if (!g_ctor) p.reset(new SL()); }
+    template <class X = M> auto mk(bool w, int) -> decltype(new typename X::scoped_lock(std::declval<X&>(), true)) { return new SL(m, w); }
+    template <class X = M> SL* mk(bool, long) { return new SL(m); }
+    template <class X = M> auto acq1(bool w, int) -> decltype(std::declval<typename X::scoped_lock&>().acquire(std::declval<X&>(), true)) { p->acquire(m, w); }
+    template <class X = M> void acq1(bool, long) { p->acquire(m); }
+    void acq(bool w, int) { if (g_ctor) p.reset(mk(w, 0)); else acq1(w, 0); isw(w, "acquire", 0); }
+    template <class X = M> auto tryacq1(bool w, int) -> decltype(std::declval<typename X::scoped_lock&>().try_acquire(std::declval<X&>(), true)) { return p->try_acquire(m, w); }
+    template <class X = M> bool tryacq1(bool, long) { return p->try_acquire(m); }
+    bool tryacq(bool w, int) { if (g_ctor) p.reset(new SL()); bool ok = tryacq1(w, 0); if (ok) isw(w, "try_acquire", 0); else if (g_ctor) p.reset(); return ok; }
+    template <class X = M> auto up(int) -> decltype(std::declval<typename X::scoped_lock&>().upgrade_to_writer()) { bool r = p->upgrade_to_writer(); isw(true, "upgrade_to_writer", 0); return r; }
     template <class X = M> bool up(long) { return true; }
-    template <class X = M> auto down(int) -> decltype(std::declval<typename X::scoped_lock&>().downgrade_to_reader()) { return sl.downgrade_to_reader(); }
+    template <class X = M> auto down(int) -> decltype(std::declval<typename X::scoped_lock&>().downgrade_to_reader()) { auto r = p->downgrade_to_reader(); isw(false, "downgrade_to_reader", 0); return r; }
     template <class X = M> bool down(long) { return true; }
-    void rel(bool) { sl.release(); }
+    // scoped_lock::is_writer() (reader-writer types that have it) tells the mode the lock is held in
+    template <class X = M> auto isw(bool w, const char* after, int) -> decltype(std::declval<typename X::scoped_lock&>().is_writer(), void()) {
+        n_isw++; if (p->is_writer() != w) vs_violation("IS-WRITER-LIE", "scoped_lock::is_writer() is %d after %s, the lock is held as a %s, type=%s", (int)p->is_writer(), after, w ? "writer" : "reader", TYPES[g_type]); }
+    template <class X = M> void isw(bool, const char*, long) {}
+    void rel(bool) { if (g_ctor) p.reset(); else p->release(); }
 };
 template <class M> struct NatOps {   // native lock()/unlock() API
     M& m; explicit NatOps(M& mm) : m(mm) {}
@@ -163,7 +173,7 @@ void h_run(Case& c) {
     int nt = 2; std::string ty;
     for (auto& l : c.lines) {
         auto w = split_ws(l);
-        if (w[0] == "mutex") { ty = w[1]; nt = (int)kvl(l, "threads", 2); g_native = kvl(l, "native", 0) != 0; }
+        if (w[0] == "mutex") { ty = w[1]; nt = (int)kvl(l, "threads", 2); g_native = kvl(l, "native", 0) != 0; g_ctor = kvl(l, "ctor", 0) != 0; }
         else if (w[0] == "t") { int t = atoi(w[1].c_str()); if ((int)g_ops.size() <= t) g_ops.resize(t + 1); g_ops[t].assign(w.begin() + 2, w.end()); }
     }
     g_ops.resize(nt);
@@ -195,7 +205,7 @@ void h_run(Case& c) {
     if (n_conc_upg) vs_stat_flag("concurrent_upgrade");
     if (fifo_pairs) vs_stat_flag("fifo_pair");
     if (n_upg_false) vs_stat_flag("upgrade_false");
-    if (n_try_fail) vs_stat_flag("try_failed");
+    if (n_try_fail) vs_stat_flag("try_failed"); if (g_ctor) vs_stat_flag("scoped_lock_constructor_form"); if (n_isw) vs_stat_flag("is_writer_checked");
     vs_stat_flag(TYPES[g_type]);
     vs_stat_add("nt", (n_overlap > 0 && n_waited > 0) ? 1 : 0);
     vs_ok();
